@@ -9,6 +9,8 @@ while several monitors watch every step.  Each property's check runs a slice of 
   metadata    (C13)        class-level controller / option tables unchanged
   strictness  (C18)        the process is still in strict mode
   structure   (C07 / C14)  links_consistent and index_coherent on every project of the pool
+  encoding    (C10)        for every module of the objects just touched: get_raw(name) is the documented stored form of the
+                           value the controller currently reads (whatever history the module has: loaded, reflected, cloned ...)
 
 Histories are deterministic in (seed, shard); every violation carries the last operations of the history.
 """
@@ -184,6 +186,26 @@ class Soak:
         if r < 0.85:
             p.attach_pattern(api.Pattern(tracks=self.rng.randint(1, 4), lines=self.rng.randint(1, 6), name=f"s{self.counter}"))
             return ("attach_pattern", self.pool.index(p))
+        if r < 0.88:
+            # MultiCtl housekeeping: pull the value back from a target (with and without sending it out again)
+            mcs = [m for m in live if type(m).__name__ == "MultiCtl" and m.out_links]
+            if mcs:
+                mc = self.rng.choice(mcs)
+                prop_ = self.rng.random() < 0.5
+                try:
+                    mc.reflect(self.rng.randrange(len(mc.out_links)), propagate=prop_)
+                    outcome = "ok"
+                except Exception as e:      # unmapped index, windows outside the value domain ...: only a perturbation here
+                    outcome = type(e).__name__
+                return ("reflect", self.pool.index(p), mc.index, prop_, outcome)
+            others = [m for m in live if m.index != 0]
+            if others:
+                m = self.rng.choice(others)
+                if self.rng.random() < 0.5:
+                    p.attach_module(m)          # already attached: nothing to do
+                else:
+                    p += m
+                return ("reattach", self.pool.index(p), m.index)
         if r < 0.92:
             p.attach_module(None)
             return ("empty_position", self.pool.index(p))
@@ -252,6 +274,32 @@ class Soak:
             self.report("metadata", "class-tables", "class-level controller/option tables changed during the session")
             self.meta0 = metadata_digest()
 
+    def check_encoding(self, touched):
+        api = self.api
+        by = spec.by_mtype()
+        for o in touched:
+            mods = [m for m in o.modules if m is not None] if isinstance(o, api.Project) else ([o.module] if o.module is not None else [])
+            for m in mods:
+                t = by.get(m.mtype)
+                if t is None or m.mtype == "MetaModule":
+                    continue
+                for sc in t.controllers:
+                    if not sc.attached or sc.kind not in ("range", "compact", "no_offset", "enum", "bool"):
+                        continue
+                    try:
+                        v = getattr(m, sc.name)
+                        raw = m.get_raw(sc.name)
+                    except Exception as e:
+                        self.report("encoding", f"raises:{t.cls_name}.{sc.name}", f"reading {t.cls_name}.{sc.name} / its stored form raised {e!r}")
+                        continue
+                    v = getattr(v, "value", v)
+                    if v is None:
+                        continue
+                    want = sc.stored(v)
+                    self.res.count("soak_encoding_evaluations")
+                    if raw != want:
+                        self.report("encoding", f"{t.cls_name}.{sc.name}", f"{t.cls_name}.{sc.name} reads {v!r} but its stored form is {raw!r} (documented: {want!r})")
+
     # ------------------------------------------------------------ driver
     def run(self, steps):
         api = self.api
@@ -300,6 +348,8 @@ class Soak:
             self.res.hist("soak_ops", op[0])
             self.res.case((self.seed, step, op[0]))
             self.check_others(touched)
+            if "encoding" in self.kinds:
+                self.check_encoding([t for t in touched if t in self.pool])
             for t in touched:
                 if t in self.pool:
                     self.remember(t)
